@@ -204,6 +204,10 @@ fn replay_acts(s: &mut dyn Stepper, acts: &[Act], coop: bool, strict: bool) -> b
             if matches!(a, Act::Yield | Act::Burn(_)) {
                 continue;
             }
+            if matches!(a, Act::External(_)) && !s.has_externals() {
+                // events outside this run (left-overs of earlier runs), absent here
+                continue;
+            }
             if s.done() {
                 return !strict;
             }
@@ -232,6 +236,9 @@ fn replay_acts(s: &mut dyn Stepper, acts: &[Act], coop: bool, strict: bool) -> b
         in_task_poll_burn(burn, || {
             s.set_deferred(true);
             for a in window {
+                if matches!(a, Act::External(_)) && !s.has_externals() {
+                    continue;
+                }
                 if s.done() || !s.apply(*a) {
                     if strict {
                         ok = false;
@@ -302,9 +309,28 @@ pub fn run_on(
     cfg: &RunCfg,
     schedule: Schedule,
 ) -> SingleResult {
+    run_on_ref(GRef::Mut(g), facts, cfg, schedule, &mut Vec::new())
+}
+
+/// Like `run_on`; `externals` (left-overs of earlier runs) may be dropped during
+/// the run, the ones not dropped are handed back.  A shared reference only
+/// serves the non-`mut` APIs.
+pub fn run_on_ref(
+    g: GRef,
+    facts: GraphFacts,
+    cfg: &RunCfg,
+    schedule: Schedule,
+    externals: &mut Vec<crate::explore::External>,
+) -> SingleResult {
     let (trace, acts, ret, engine, polls, strict_ok) = if cfg.api.shape.is_stream() {
-        let mut c = Consumer::new(&*g, cfg);
+        let gs: &fn_graph::FnGraph<crate::model::TestFn> = match g {
+            GRef::Shared(g) => g,
+            GRef::Mut(g) => &*g,
+        };
+        let mut c = Consumer::new(gs, cfg);
+        c.set_externals(std::mem::take(externals));
         let ok = drive(&mut c, schedule, cfg.coop);
+        *externals = c.take_externals();
         (
             c.trace(),
             c.acts().to_vec(),
@@ -314,8 +340,10 @@ pub fn run_on(
             ok,
         )
     } else {
-        let mut r = Runner::new(GRef::Mut(g), cfg);
+        let mut r = Runner::new(g, cfg);
+        r.set_externals(std::mem::take(externals));
         let ok = drive(&mut r, schedule, cfg.coop);
+        *externals = r.take_externals();
         (
             r.trace(),
             r.acts().to_vec(),
